@@ -1,6 +1,10 @@
 prop("C32",
      theorems=["NeoFS.Handlers.checker_sound", "NeoFS.Handlers.checker_sound_view", "NeoFS.C32.control_handlers_checked", "NeoFS.C32.control_effects_follow_signature_check",
-               "NeoFS.C32.denied_signature_no_effect", "NeoFS.C32.isValid_iff"],
+               "NeoFS.C32.denied_signature_no_effect", "NeoFS.C32.isValid_iff",
+               "NeoFS.C32.concurrent_verdicts_are_sequential", "NeoFS.C32.scheduled_request_is_decided",
+               "NeoFS.C32.forged_request_never_accepted", "NeoFS.C32.genuine_request_accepted",
+               "NeoFS.C32.barrier_verdicts_are_sequential", "NeoFS.C32.scratch_buffer_allows_forgery",
+               "NeoFS.C32.auth_path_shares_nothing_mutable"],
      engines=[dict(name="rpc", quick=1, thorough=1)],
      claim="Every method of control.ControlServiceServer (storage node, 12 methods now) and of the inner ring's ControlServiceServer (4 methods) is "
            "re-extracted from the working tree on every run into a term (isValidRequest is package-local and therefore inlined into each "
@@ -12,15 +16,36 @@ prop("C32",
            "(isValid_iff, all lists/requests). Inputs part: both real servers (storage node: real one-shard engine, recording node state and "
            "health checker; inner ring: recording notary manager) and every method found by reflection called with no signature, a valid "
            "signature by an unconfigured key, a configured key over a body changed after signing, broken signature bytes and a correct "
-           "signature: PermissionDenied with no recorded call and unchanged shard state, or passed.",
+           "signature: PermissionDenied with no recorded call and unchanged shard state, or passed. Concurrent part: ONE server, any "
+           "set of requests in flight, each a thread of atomic steps (key scan, marshal the signed data into the request's own buffer, "
+           "decode the key, verify): Lean proves that under EVERY interleaving a decided request has exactly the verdict isValidRequest "
+           "gives it alone (concurrent_verdicts_are_sequential), that four own steps decide it (scheduled_request_is_decided), hence a "
+           "request carrying a signature made over another body is never accepted and a genuine one always is, whatever runs beside it; "
+           "and that this is a property of the buffer discipline: with one server-owned scratch buffer read after the marshalling step a "
+           "forged request is accepted next to a replay of the genuine one (scratch_buffer_allows_forgery). Op `crace` runs this against one "
+           "real server of each service: per method three bodies of equal encoded length, genuine requests of two configured keys replayed "
+           "together with requests carrying the Signature copied from a genuine request over another body, a valid signature of an "
+           "unconfigured key, none, damaged bytes; sync=1 lines the requests up at the hook points after the key scan and before Signature.Verify and "
+           "releases them together (every request has marshalled before any verifies), sync=0 re-sends them uncoordinated (volume).",
      note="Proved: dominance of the signature verification over all effects in every generated control handler; the decision table of the hand "
           "model. Only exercised (not proved from source): that the allowed-key scan inside isValidRequest is what the hand model says - the "
           "translator sees the scan as an opaque branch, so REMOVING the allowed-key test is caught by the dynamic 'wrongkey' requests, not by "
           "the static theorem. Trusted: translator harness/extract (skel.go, rules.go); ECDSA/SHA-512 and protobuf marshalling of the signed "
           "body (ideal signature: sigValid is a fact about (key, body, signature)). The two sign.go files are read to be identical up to an "
-          "import and a message text.",
+          "import and a message text. The concurrent model's step granularity is chosen by hand; that its steps are request-local is tied "
+          "to the code twice: (1) regenerated facts Gen/CtlShared.lean (harness/extract/ctlshared.go, syntactic): the authorisation path of both "
+          "servers - isValidRequest and the package functions it calls - assigns, slices or takes the address of no field of "
+          "the server and no package variable, and no server method assigns a field it reads (auth_path_shares_nothing_mutable, decide over "
+          "the regenerated lists); method calls ON a field or package variable (sync.Pool, sync.Map, a mutex) and fields passed whole to a call "
+          "are not seen by these facts; a server-owned buffer that IS correctly locked across the verification also fails this theorem "
+          "(reported without a failing input: the model then has to be extended by the lock); (2) the forced schedule and the volume runs of op `crace`, which "
+          "sample interleavings rather than prove them.",
      rule="16 methods (both services, by reflection) x 5 request kinds (correct, none, unconfigured key, body changed after signing, broken "
-          "signature bytes); non-trivial = denied with PermissionDenied, zero recorded dependency calls and unchanged shard state; distinct by op line",
+          "signature bytes); non-trivial = denied with PermissionDenied, zero recorded dependency calls and unchanged shard state; distinct by op line; "
+          "op crace: per service all methods together and each method alone, lined up before the verification (sync=1) and uncoordinated "
+          "(sync=0); non-trivial = both passed and denied requests in one op",
      trusted=["harness/extract/skel.go and rules.go (control-skeleton translator and tag table)",
-              "harness/eng_rpc_ctl.go (reflection-built requests, recording fakes)"],
+              "harness/extract/ctlshared.go (syntactic shared-state facts of the authorisation path)",
+              "harness/eng_rpc_ctl.go (reflection-built requests, recording fakes)",
+              "harness/eng_rpc_ctlrace.go (equal-length body variants, barriers at the hook points {ctl,irctl}.auth.afterKeyScan and {ctl,irctl}.auth.beforeVerify)"],
      assumptions=["neofscrypto.Signature.Verify and neofsecdsa key decoding behave as an ideal signature scheme"])
